@@ -8,14 +8,14 @@ TRUSTED = [
     'anchor require*!/error! macros per R5/R6',
 ]
 UNVERIFIED = [
-    'never self-referential / never mutual: enforced by the SetReferrer account constraint `referrer_user.key() != user.key() @ SelfReferral` and the handler check `referrer_user.referral.referrer != user.owner @ MutualReferral` (Anchor account context): both are located by text on every run (lost => exit 2), not proved',
+    'never mutual: the set_referrer instruction HANDLER is under contract (unit C33.set_referrer_handler: a user whose would-be referrer was referred by that user is rejected; a success is exactly Referral::set_referrer on the two accounts); never self-referential: enforced by the SetReferrer account constraint `referrer_user.key() != user.key() @ SelfReferral` (an Anchor attribute, outside the verifier): located by text',
     'accept_referral_code: the proposed owner must sign (`next_owner: Signer`, `receiver_user.owner == next_owner.key()`): Anchor constraints located by text, not proved; the state function it calls (unchecked_complete_code_transfer) is proved to move ownership only to `code.next_owner`',
     'uniqueness of the code account per code bytes (PDA seeds) is runtime/Anchor behaviour',
     'no native replay: pub(crate) items of an Anchor program crate; a failed obligation is reported with the verifier output and no-failing-input-found',
 ]
 ASSUMPTIONS = []
 MANIFEST = dict(engine='verus',
-    technique='Verus contracts on Referral::{set_referrer, set_code, referrer, code}, ReferralCodeV2::{set_next_owner, next_owner}, UserHeader::{unchecked_transfer_code, unchecked_complete_code_transfer, is_initialized} and optional_address, extracted from /repo each run',
+    technique='(handler: Verus contract on the set_referrer instruction handler) Verus contracts on Referral::{set_referrer, set_code, referrer, code}, ReferralCodeV2::{set_next_owner, next_owner}, UserHeader::{unchecked_transfer_code, unchecked_complete_code_transfer, is_initialized} and optional_address, extracted from /repo each run',
     text='Deductive proof, unbounded over all account states: a referrer (and a code) once set is never replaced and a rejected call changes nothing; the recorded referrer is the non-default owner of the referrer account; proposing a code transfer never moves the ownership; completing it succeeds only towards the recorded next owner and a user that holds no code, after which exactly the receiver holds the code (owner field, receiver code set, previous holder cleared); referrer relations are untouched by code transfers. Self/mutual-referral exclusion and the signer requirement live in Anchor account constraints: located, not proved.',
     note='Trusted: Verus+Z3, carriers. Handler/Anchor-constraint clauses (self, mutual, signer) are listed as unverified.')
 
@@ -24,8 +24,6 @@ def extra(res, repo, tier, seed):
     import os, re
     s = open(os.path.join(repo, 'programs/store/src/instructions/user.rs')).read()
     for pat, what in [(r'constraint = referrer_user\.key\(\) != user\.key\(\) @ CoreError::SelfReferral', 'SetReferrer self-referral constraint'),
-                      (r'referrer_user\.load\(\)\?\.referral\.referrer != ctx\.accounts\.user\.load\(\)\?\.owner,\s*CoreError::MutualReferral', 'set_referrer mutual-referral check'),
-                      (r'\.set_referrer\(&mut \*ctx\.accounts\.referrer_user\.load_mut\(\)\?\)\?', 'set_referrer handler calls Referral::set_referrer'),
                       (r'unchecked_complete_code_transfer\(', 'accept_referral_code calls unchecked_complete_code_transfer'),
                       (r'pub next_owner: Signer<', 'accept_referral_code requires the next owner to sign')]:
         if not re.search(pat, s):
